@@ -16,7 +16,7 @@ pub const FLOORS: &[&str] = &[
     "reset_after_eval_store", "reset_after_program_store", "reset_twice", "reset_then_full_run",
     "store_into_code", "store_into_stack_area", "memory_dirty_before_reset", "output:minimal", "output:decorated",
     "assembly_after_store_into_code", "resumed_under_debugger_after_reset", "reset_while_paused_on_breakpoint",
-    "resume_after_reset_compared_with_fresh_session", "reset_after_unfinished_step_over_call",
+    "resume_after_reset_compared_with_fresh_session", "reset_after_unfinished_step_over_call", "halt_planted_before_reset", "reset_after_eval_jump",
 ];
 
 const FUEL: u64 = 15_000;
@@ -206,8 +206,19 @@ fn one_case(seed: u64, i: u64) -> CaseOut {
                     _ => orig.wrapping_add(rng.below(0x400) as u16).min(0xFDFF).max(orig),
                 };
                 // words stored over code must stay executable and harmless (no RTI, no wild jumps)
-                let w = *rng.pick(&[0x1021u16, 0x5020, 0x0000, 0x927F, 0x1DA1, 0x0E00, 0x16E5]);
-                lines.push(format!("move x{:04x} x{:04x}", a, w));
+                let mut w = *rng.pick(&[0x1021u16, 0x5020, 0x0000, 0x927F, 0x1DA1, 0x0E00, 0x16E5]);
+                let mut a = a;
+                if rng.chance(1, 6) {
+                    // a HALT planted in the code - at the origin while the PC may still be there, or anywhere -
+                    // and a try to run on: the pause on it is history like everything else
+                    w = 0xF025;
+                    a = if rng.bool() { orig } else { in_prog(&mut rng) };
+                    tags.push("halt_planted_before_reset");
+                    lines.push(format!("move x{:04x} x{:04x}", a, w));
+                    lines.push(rng.s(&["continue", "step", "si 2", "registers"]).to_string());
+                } else {
+                    lines.push(format!("move x{:04x} x{:04x}", a, w));
+                }
                 tags.push("reset_after_move_mem");
             }
             5 => {
@@ -224,6 +235,15 @@ fn one_case(seed: u64, i: u64) -> CaseOut {
                 lines.push(format!("move r1 x{:04x}", a));
                 lines.push(format!("eval str r{} r1 #{}", rng.below(8), rng.range(-3, 3)));
                 tags.push("reset_after_eval_store");
+            }
+            8 if rng.bool() => {
+                // a hand-made call or jump into the program
+                lines.push(format!("move r2 x{:04x}", in_prog(&mut rng)));
+                lines.push(format!("eval {} r2", rng.s(&["jsrr", "jmp", "JSRR"])));
+                if rng.bool() {
+                    lines.push(rng.s(&["si 2", "step", "si 5"]).to_string());
+                }
+                tags.push("reset_after_eval_jump");
             }
             8 => {
                 lines.push(format!("eval add r{} r{} #{}", rng.below(8), rng.below(8), rng.range(-16, 15)));
